@@ -146,11 +146,32 @@ type (
 	List struct{ Elems []Val }
 	// Closure is a lambda with its lexical environment.
 	Closure struct {
-		Params []string
-		Body   []*Node
-		Env    *env
+		LL   *LambdaList
+		Body []*Node
+		Env  *env
 	}
 )
+
+// Param is an &optional or &key parameter with its init form (nil = none).
+type Param struct {
+	Name string
+	Init *Node
+}
+
+// LambdaList is an ordinary lambda list: required parameters, &optional
+// parameters, a &rest parameter and &key parameters.
+type LambdaList struct {
+	Req    []string
+	Opt    []Param
+	Rest   string
+	HasKey bool
+	Keys   []Param
+}
+
+// ArityError is the failure of a call whose arguments do not fit the lambda
+// list of the callee (the one failure generated programs provoke on purpose,
+// inside ignore-errors).
+type ArityError struct{ Msg string }
 
 // Show renders a value the way the harness renders slip objects (sl.Show).
 func Show(v Val) string {
@@ -182,9 +203,9 @@ func Show(v Val) string {
 
 // Func is a user function.
 type Func struct {
-	Params []string
-	Body   []*Node
-	Env    *env // lexical environment of the defun form (a defun inside let/let*/lambda closes over it)
+	LL   *LambdaList
+	Body []*Node
+	Env  *env // lexical environment of the defun form (a defun inside let/let*/lambda closes over it)
 }
 
 // Macro is a user macro whose body is one backquote template: (defmacro name
@@ -247,6 +268,8 @@ func (m *Machine) Top(n *Node) (v Val, err error) {
 			switch tr := r.(type) {
 			case *Error:
 				err = tr
+			case *ArityError:
+				err = &Error{Msg: "arity: " + tr.Msg}
 			case Budget:
 				err = &Error{Msg: "budget"}
 			default:
@@ -341,14 +364,7 @@ func (m *Machine) callUser(name string, args []Val) Val {
 	if fn == nil {
 		fail("function %s is not defined", name)
 	}
-	if len(args) != len(fn.Params) {
-		fail("function %s called with %d arguments, takes %d", name, len(args), len(fn.Params))
-	}
-	ne := &env{vars: map[string]Val{}, parent: fn.Env}
-	for i, p := range fn.Params {
-		ne.vars[p] = args[i]
-	}
-	return m.body(fn.Body, ne)
+	return m.body(fn.Body, m.bind(name, fn.LL, args, fn.Env))
 }
 
 func (m *Machine) apply(f Val, args []Val) Val {
@@ -356,28 +372,118 @@ func (m *Machine) apply(f Val, args []Val) Val {
 	case Symbol:
 		return m.callUser(string(tf), args)
 	case *Closure:
-		if len(args) != len(tf.Params) {
-			fail("lambda called with %d arguments, takes %d", len(args), len(tf.Params))
-		}
-		ne := &env{vars: map[string]Val{}, parent: tf.Env}
-		for i, p := range tf.Params {
-			ne.vars[p] = args[i]
-		}
-		return m.body(tf.Body, ne)
+		return m.body(tf.Body, m.bind("lambda", tf.LL, args, tf.Env))
 	}
 	fail("%s is not a function designator", Show(f))
 	return nil
 }
 
-func params(n *Node) []string {
-	var ps []string
-	for _, p := range n.List {
-		if p.Kind != 's' {
-			fail("parameter is not a symbol")
-		}
-		ps = append(ps, p.Sym)
+// bind makes the environment of a call (CLHS 3.4.1): required parameters,
+// then &optional parameters, the &rest list, then &key parameters, from left
+// to right; the init form of an absent parameter is evaluated with the
+// parameters before it bound. Dialect (slip documents it for defun): with
+// &key any other keyword is allowed and ignored. Of a keyword given twice the
+// leftmost counts.
+func (m *Machine) bind(who string, ll *LambdaList, args []Val, parent *env) *env {
+	ne := &env{vars: map[string]Val{}, parent: parent}
+	if len(args) < len(ll.Req) {
+		panic(&ArityError{Msg: fmt.Sprintf("%s called with %d arguments, needs %d", who, len(args), len(ll.Req))})
 	}
-	return ps
+	for i, p := range ll.Req {
+		ne.vars[p] = args[i]
+	}
+	args = args[len(ll.Req):]
+	for _, p := range ll.Opt {
+		switch {
+		case 0 < len(args):
+			ne.vars[p.Name] = args[0]
+			args = args[1:]
+		case p.Init != nil:
+			ne.vars[p.Name] = m.eval(p.Init, ne)
+		default:
+			ne.vars[p.Name] = Nil{}
+		}
+	}
+	if ll.Rest != "" {
+		ne.vars[ll.Rest] = mkList(append([]Val{}, args...))
+	}
+	if !ll.HasKey {
+		if ll.Rest == "" && 0 < len(args) {
+			panic(&ArityError{Msg: fmt.Sprintf("%s called with %d arguments too many", who, len(args))})
+		}
+		return ne
+	}
+	if len(args)%2 != 0 {
+		panic(&ArityError{Msg: fmt.Sprintf("%s called with an odd number of keyword arguments", who)})
+	}
+	for i := 0; i < len(args); i += 2 {
+		if k, ok := args[i].(Symbol); !ok || !strings.HasPrefix(string(k), ":") {
+			panic(&ArityError{Msg: fmt.Sprintf("%s called with %s where a keyword is expected", who, Show(args[i]))})
+		}
+	}
+	for _, p := range ll.Keys {
+		found := false
+		for i := 0; i < len(args); i += 2 {
+			if string(args[i].(Symbol)) == ":"+p.Name {
+				ne.vars[p.Name] = args[i+1]
+				found = true
+				break
+			}
+		}
+		switch {
+		case found:
+		case p.Init != nil:
+			ne.vars[p.Name] = m.eval(p.Init, ne)
+		default:
+			ne.vars[p.Name] = Nil{}
+		}
+	}
+	return ne
+}
+
+// lambdaList parses an ordinary lambda list.
+func lambdaList(n *Node) *LambdaList {
+	ll := &LambdaList{}
+	mode := 0
+	for _, p := range n.List {
+		if p.Kind == 's' && strings.HasPrefix(p.Sym, "&") {
+			switch p.Sym {
+			case "&optional":
+				mode = 1
+			case "&rest", "&body":
+				mode = 2
+			case "&key":
+				mode = 3
+				ll.HasKey = true
+			default:
+				fail("lambda list keyword %s is not supported", p.Sym)
+			}
+			continue
+		}
+		var pm Param
+		switch {
+		case p.Kind == 's':
+			pm.Name = p.Sym
+		case p.Kind == 'l' && len(p.List) == 2 && p.List[0].Kind == 's' && 0 < mode:
+			pm.Name, pm.Init = p.List[0].Sym, p.List[1]
+		default:
+			fail("unsupported parameter in lambda list")
+		}
+		switch mode {
+		case 0:
+			ll.Req = append(ll.Req, pm.Name)
+		case 1:
+			ll.Opt = append(ll.Opt, pm)
+		case 2:
+			if pm.Init != nil || ll.Rest != "" {
+				fail("bad &rest parameter")
+			}
+			ll.Rest = pm.Name
+		case 3:
+			ll.Keys = append(ll.Keys, pm)
+		}
+	}
+	return ll
 }
 
 func (m *Machine) eval(n *Node, e *env) Val {
@@ -394,6 +500,9 @@ func (m *Machine) eval(n *Node, e *env) Val {
 			return Nil{}
 		case "t":
 			return T{}
+		}
+		if strings.HasPrefix(n.Sym, ":") {
+			return Symbol(n.Sym) // a keyword evaluates to itself
 		}
 		return m.getVar(n.Sym, e)
 	}
@@ -440,10 +549,15 @@ func (m *Machine) eval(n *Node, e *env) Val {
 		}
 		return m.eval(a[0], e)
 	case "lambda":
-		return &Closure{Params: params(a[0]), Body: a[1:], Env: e}
+		return &Closure{LL: lambdaList(a[0]), Body: a[1:], Env: e}
 	case "defun":
-		m.Funcs[a[0].Sym] = &Func{Params: params(a[1]), Body: a[2:], Env: e}
+		m.Funcs[a[0].Sym] = &Func{LL: lambdaList(a[1]), Body: a[2:], Env: e}
+		delete(m.Macros, a[0].Sym)
 		return Symbol(a[0].Sym)
+	case "ignore-errors":
+		// only the failure of a call to fit the callee's lambda list is an
+		// expected error of generated programs
+		return m.ignoreArity(a, e)
 	case "defvar":
 		if _, has := m.Globals[a[0].Sym]; !has {
 			m.Globals[a[0].Sym] = m.eval(a[1], e)
@@ -637,6 +751,18 @@ func (m *Machine) eval(n *Node, e *env) Val {
 		return m.apply(args[0], all)
 	}
 	return m.callUser(head.Sym, args)
+}
+
+func (m *Machine) ignoreArity(forms []*Node, e *env) (v Val) {
+	defer func() {
+		if r := recover(); r != nil {
+			if _, ok := r.(*ArityError); !ok {
+				panic(r)
+			}
+			v = Nil{}
+		}
+	}()
+	return m.body(forms, e)
 }
 
 func (m *Machine) args(a []*Node, e *env) []Val {
